@@ -129,6 +129,17 @@ Section C09.
           mkSess content name ReadWrite (resolve_comp comp) (mkH5 content (f_hdr _ (blank content empty)) true true true true empty)).
   Proof. exact (empty_file_opens content empty). Qed.
 
+
+  (** a library-shaped file with a complete header of ANY format version opens (unchanged) exactly when the
+      version gate of C10 lets its version through; otherwise InvalidFile *)
+  Theorem C09_open_complete_header : forall (s : fsys) name f x y z mode comp,
+    s name = Some (H5 f) -> hdr_complete (f_hdr _ f) = true -> h_version (f_hdr _ f) = Some [x; y; z] ->
+    shaped content f = true -> mode <> Overwrite ->
+    file_open s name mode comp false =
+      if gate_specb x y z mode false then Ok (s, mkSess content name mode (resolve_comp comp) f)
+      else Err "nix::InvalidFile".
+  Proof. exact (open_complete_header content empty). Qed.
+
   (** exactly what Force does: ReadWrite opens ANY HDF5 file (header left defective, missing groups and time
       stamps created); ReadOnly opens it only when nothing has to be created *)
   Theorem C09_force_rw : forall (s : fsys) name f comp,
@@ -176,6 +187,7 @@ Print Assumptions C09_refused_plain_hdf5.
 Print Assumptions C09_refused_not_hdf5.
 Print Assumptions C09_refused_open_fs.
 Print Assumptions C09_empty_file.
+Print Assumptions C09_open_complete_header.
 Print Assumptions C09_force_rw.
 Print Assumptions C09_force_ro.
 Print Assumptions C09_open_meets_spec.
